@@ -200,3 +200,72 @@ fn greeting_default() {
     assert!(g.version == (3, 0) && mech_eq(g.mechanism, ZmqMechanism::NULL) && !g.as_server);
 }
 
+
+// ---- ZmqCommand::try_from: panic-freedom over every short command body (BOUNDED) ----
+// std's HashMap is intractable for CBMC; the property map is write-only in try_from (its content never
+// influences control flow), so `insert` is stubbed to a no-op that just drops key and value.
+fn hm_insert_stub<K, V, S, A: std::alloc::Allocator>(_m: &mut std::collections::HashMap<K, V, S, A>, _k: K, _v: V) -> Option<V> {
+    None
+}
+fn random_state_stub() -> std::collections::hash_map::RandomState {
+    unsafe { std::mem::transmute([0u64; 2]) }
+}
+
+fn cmd_parse_nopanic_n<const LEN: usize>() {
+    let buf: [u8; LEN] = kani::any();
+    let n: usize = kani::any();
+    kani::assume(n <= LEN);
+    let b = Bytes::copy_from_slice(&buf[..n]);
+    let r = ZmqCommand::try_from(b);
+    kani::cover!(r.is_ok(), "a well-formed READY is reachable");
+    kani::cover!(r.is_err(), "a malformed command is reachable");
+    std::mem::forget(r);
+}
+
+/// BOUNDED: all command bodies of length <= 12 (READY + one property with a 1 octet name and value)
+#[kani::proof]
+#[kani::unwind(14)]
+#[kani::stub(std::collections::HashMap::insert, hm_insert_stub)]
+#[kani::stub(std::collections::hash_map::RandomState::new, random_state_stub)]
+fn cmd_parse_nopanic() {
+    cmd_parse_nopanic_n::<12>();
+}
+
+fn cmd_parse_ascii_n<const LEN: usize>() {
+    let buf: [u8; LEN] = kani::any();
+    let n: usize = kani::any();
+    kani::assume(n <= LEN);
+    let mut i = 0;
+    while i < LEN {
+        kani::assume(buf[i] < 0x80);
+        i += 1;
+    }
+    let b = Bytes::copy_from_slice(&buf[..n]);
+    let r = ZmqCommand::try_from(b);
+    std::mem::forget(r);
+}
+#[kani::proof]
+#[kani::unwind(10)]
+#[kani::stub(std::collections::HashMap::insert, hm_insert_stub)]
+#[kani::stub(std::collections::hash_map::RandomState::new, random_state_stub)]
+fn tmp_cmd8() {
+    cmd_parse_nopanic_n::<8>();
+}
+#[kani::proof]
+#[kani::unwind(14)]
+#[kani::stub(std::collections::HashMap::insert, hm_insert_stub)]
+#[kani::stub(std::collections::hash_map::RandomState::new, random_state_stub)]
+fn tmp_cmd12_ascii() {
+    cmd_parse_ascii_n::<12>();
+}
+fn from_utf8_stub(_v: Vec<u8>) -> Result<String, std::string::FromUtf8Error> {
+    Ok(String::new())
+}
+#[kani::proof]
+#[kani::unwind(14)]
+#[kani::stub(std::collections::HashMap::insert, hm_insert_stub)]
+#[kani::stub(std::collections::hash_map::RandomState::new, random_state_stub)]
+#[kani::stub(std::string::String::from_utf8, from_utf8_stub)]
+fn tmp_cmd12_noutf8() {
+    cmd_parse_nopanic_n::<12>();
+}
